@@ -10,8 +10,24 @@ def run(ctx):
     ctx.assumptions += ["densities are dyadic or the capacity comparison is strict, so density*layerWidth is compared exactly (ties admit both outcomes)"]
     ctx.model("MCChain", "NegChain_allpairs.cfg", workers=2, expect_violation="RoundedSepAllPairs",
               label="(shared layer model self-test)")
+    quick = ctx.tier == "quick"
+    ctx.model("MCDistributor", "MCDistributor_quick.cfg" if quick else "MCDistributor.cfg", workers=core.NCPU, heap="6g",
+              label="operational layering model: conservation, capacity, single-layer rule on every label sequence of the lattice x options")
+    ctx.model("MCDistributor", "NegDistributor_noescape.cfg", workers=4, expect_violation="CapacityNoEscape",
+              label="negative self-test: without the 'at most two labels' escape clause the capacity bound is false")
     recs, meta, errors = lc.gather(ctx, ["random", "dense", "bounds", "relayout"])
     lc.check(ctx, "LayoutC04.cfg", recs, meta, "C04_")
+    # conformance of the operational model with the observed layerings: drift is reported, never a verdict
+    sub = [r for r in recs if r["lattice"] == 1 and r.get("fresh") == 1 and len(r["labels"]) <= 60]
+    drift, st = core.validate_records("DistDrift", "DistDrift.cfg", sub, per_shard=300, heap="3g")
+    ctx.states += st["distinct"]
+    ctx.transitions += st["generated"]
+    ctx.extra["operational_model_conformance"] = {"layerings_compared": len(sub), "explained_exactly_by_Distributor.tla": len(sub) - len(drift),
+                                                  "spec_drift": len(drift)}
+    if drift:
+        import json
+        ctx.notes.append("spec drift: %d layerings are not reproduced by the operational model (first: %s)"
+                         % (len(drift), json.dumps({k: sub[drift[0][0]][k] for k in ("opts", "labels")})[:400]))
     ctx.evaluations += len(recs)
     ctx.nontrivial += len({lc.keyof(r) for r in recs if len(r["layers"]) > 1})
     for r, m in zip(recs, meta):
